@@ -25,6 +25,46 @@ int main(void)
 			printf("%lu\n", h);
 			continue;
 		}
+		/* crcalias <k> <hex> - -: the state variable lies INSIDE the buffer, at the even offset k (its initial value is
+		   whatever those two bytes are).  Output: initial-state result.  The bytes hashed are those present at the call. */
+		if (cmd && !strcmp(cmd, "crcalias") && init && hx) {
+			size_t k = strtoul(init, NULL, 10); uint16_t v0, v1;
+			raw = unhex_alloc(hx, &len, 0);
+			if ((k & 1) || k + 2 > len) { puts("ERR"); free(raw); continue; }
+			memcpy(&v0, raw + k, 2);
+			lha_crc16_buf((uint16_t *) (void *) (raw + k), raw, len);
+			memcpy(&v1, raw + k, 2);
+			printf("%04x %04x\n", v0, v1);
+			free(raw);
+			continue;
+		}
+		/* crcx <align> <init> <hex> <pieces>: as "crc", but the buffer starts at the given offset (0..63) from a 64-byte
+		   boundary and ENDS exactly at the end of its allocation (an over-read of one byte is a sanitizer report). */
+		if (cmd && !strcmp(cmd, "crcx") && init && hx && sp) {
+			size_t al = strtoul(init, NULL, 10) & 63; char *pcs = strtok(NULL, " \n"); void *mem = NULL;
+			uint8_t *tmpb = unhex_alloc(sp, &len, 0);
+			if (!pcs || posix_memalign(&mem, 64, al + len ? al + len : 1) != 0) { puts("ERR"); free(tmpb); continue; }
+			buf = (uint8_t *) mem + al;
+			memcpy(buf, tmpb, len); free(tmpb);
+			whole = (uint16_t) strtoul(hx, NULL, 10);
+			lha_crc16_buf(&whole, buf, len);
+			pw = (uint16_t) strtoul(hx, NULL, 10);
+			pos = 0;
+			if (strcmp(pcs, "-")) {
+				char *p = pcs;
+				while (*p) {
+					size_t k = strtoul(p, &p, 10);
+					if (k > len - pos) k = len - pos;
+					lha_crc16_buf(&pw, buf + pos, k);
+					pos += k;
+					if (*p == ',') ++p;
+				}
+			}
+			lha_crc16_buf(&pw, buf + pos, len - pos);
+			printf("%04x %04x\n", whole, pw);
+			free(mem);
+			continue;
+		}
 		if (!cmd || !init || !hx || !sp) { puts("ERR"); continue; }
 		raw = unhex_alloc(hx, &len, 8);
 		off = caseno++ % 8;
